@@ -1,2 +1,141 @@
-/- placeholder driver for C15: replaced when the check for C15 is built -/
-def main : IO Unit := IO.println "not-built"
+import CashewsVerif.Driver.Proto
+import CashewsVerif.Model.Decor.RateSched
+import CashewsVerif.Spec.RateLimit
+/-
+Driver for C15.  Request lines:
+
+  case fixed <limit> <period> <ttl|->            start a sequential history of `rate_limit`
+  case slide <limit> <period>                    ... of `slice_rate_limit`
+  case breaker <rate> <period> <ttl> <min_calls> ... of `circuit_breaker`
+  call <dt> [ok|fail|other]                      one call `dt` ticks after the previous one
+        -> ts=<instant> dec=<run|rej|fault>                       (limiters)
+        -> ts=<instant> dec=<open|ran:<oc>> open=<T|F> total=<n> fails=<n> trip=<T|F>   (breaker)
+  spawn <oc> <oc> ...                            concurrent mode: one task per outcome, same decorator
+  step <i>                                       task i performs its next step  -> lbl=<...>
+  tick <dt>                                      virtual time passes            -> ok
+  result <i>                                     -> ran=<T|F> opened=<T|F> | pending
+  spec <ev> <ev> ...                             evaluate the property on an observed trace of the
+                                                 current case's decorator -> holds | fails
+        limiter ev: <ts>:<run|rej>      breaker ev: <ts>:<open|ok|fail|other>:<T|F (open after)>
+-/
+open CashewsVerif CashewsVerif.Proto CashewsVerif.Decor
+
+structure St where
+  kind  : Option Sched.Kind := none
+  tm    : TtlMap := TtlMap.init
+  world : Sched.World := Sched.init []
+
+def showB (b : Bool) : String := if b then "T" else "F"
+
+def showDec : Dec → String
+  | .run => "run" | .reject => "rej" | .fault => "fault"
+
+def showOc : Breaker.Outcome → String
+  | .ok => "ok" | .fail => "fail" | .other => "other"
+
+def parseOc? : String → Option Breaker.Outcome
+  | "ok" => some .ok | "fail" => some .fail | "other" => some .other | _ => none
+
+def showLbl : Sched.Lbl → String
+  | .start => "start"
+  | .incr r => s!"incr:{showOut r}"
+  | .expire => "expire"
+  | .slice k ts c => s!"slice:{k}:{ts}:{c}"
+  | .isLocked b => s!"is_locked:{showB b}"
+  | .exists_ b => s!"exists:{showB b}"
+  | .setLock b => s!"set_lock:{showB b}"
+  | .body => "body"
+  | .idle => "idle"
+
+def parseEv? (s : String) : Option Ev :=
+  match s.splitOn ":" with
+  | [ts, "run"] => ts.toNat?.map (⟨·, .run⟩)
+  | [ts, "rej"] => ts.toNat?.map (⟨·, .reject⟩)
+  | _ => none
+
+def parseBool? : String → Option Bool
+  | "T" => some true | "F" => some false | _ => none
+
+def parseBEv? (s : String) : Option Breaker.BEv :=
+  match s.splitOn ":" with
+  | [ts, "open", o] => do
+    pure { ts := ← ts.toNat?, res := .rejected, openAfter := ← parseBool? o }
+  | [ts, oc, o] => do
+    let oc ← parseOc? oc
+    let o ← parseBool? o
+    pure { ts := ← ts.toNat?, res := .ran oc (o && oc == .fail), openAfter := o }
+  | _ => none
+
+def step (st : St) (line : String) : St × String :=
+  match words line with
+  | ["case", "fixed", l, p, ttl] =>
+    match l.toNat?, p.toNat?, parseTtl? ttl with
+    | some l, some p, some ttl => ({ kind := some (.fixed ⟨l, p, ttl⟩) }, "ok")
+    | _, _, _ => (st, "bad-op")
+  | ["case", "slide", l, p] =>
+    match l.toNat?, p.toNat? with
+    | some l, some p => ({ kind := some (.slide ⟨l, p⟩) }, "ok")
+    | _, _ => (st, "bad-op")
+  | ["case", "breaker", r, p, ttl, mc] =>
+    match r.toNat?, p.toNat?, ttl.toNat?, mc.toNat? with
+    | some r, some p, some ttl, some mc => ({ kind := some (.breaker { rate := r, period := p, ttl := ttl, minCalls := mc }) }, "ok")
+    | _, _, _, _ => (st, "bad-op")
+  | "call" :: dt :: rest =>
+    match st.kind, dt.toNat?, rest with
+    | some (.fixed p), some dt, [] =>
+      let (t', e) := Rate.call p st.tm dt
+      ({ st with tm := t' }, s!"ts={e.ts} dec={showDec e.dec}")
+    | some (.slide p), some dt, [] =>
+      let (t', e) := SlideRate.call p st.tm dt
+      ({ st with tm := t' }, s!"ts={e.ts} dec={showDec e.dec}")
+    | some (.breaker p), some dt, [oc] =>
+      match parseOc? oc with
+      | none => (st, "bad-op")
+      | some oc =>
+        let (t', e) := Breaker.call p st.tm (dt, oc)
+        let (d, trip) := match e.res with
+          | .rejected => ("open", false)
+          | .ran oc tr => (s!"ran:{showOc oc}", tr)
+        ({ st with tm := t' }, s!"ts={e.ts} dec={d} open={showB e.openAfter} total={e.total} fails={e.fails} trip={showB trip}")
+    | _, _, _ => (st, "bad-op")
+  | "spawn" :: ocs =>
+    match st.kind, allSome (ocs.map parseOc?) with
+    | some _, some ocs => ({ st with world := Sched.init ocs }, "ok")
+    | _, _ => (st, "bad-op")
+  | ["step", i] =>
+    match st.kind, i.toNat? with
+    | some k, some i =>
+      if i < st.world.tasks.length then
+        let (w', l) := Sched.step k st.world (.task i)
+        ({ st with world := w' }, s!"lbl={showLbl l}")
+      else (st, "bad-op")
+    | _, _ => (st, "bad-op")
+  | ["tick", dt] =>
+    match st.kind, dt.toNat? with
+    | some k, some dt => ({ st with world := (Sched.step k st.world (.tick dt)).1 }, "ok")
+    | _, _ => (st, "bad-op")
+  | ["result", i] =>
+    match i.toNat?.bind (st.world.tasks[·]?) with
+    | some tk =>
+      match tk.phase with
+      | .done ran opened => (st, s!"ran={showB ran} opened={showB opened}")
+      | _ => (st, "pending")
+    | none => (st, "bad-op")
+  | "spec" :: evs =>
+    match st.kind with
+    | some (.fixed p) =>
+      match allSome (evs.map parseEv?) with
+      | some tr => (st, if Spec.fixedHolds p.limit p.period p.effTtl tr then "holds" else "fails")
+      | none => (st, "bad-op")
+    | some (.slide p) =>
+      match allSome (evs.map parseEv?) with
+      | some tr => (st, if Spec.slidingHolds p.limit p.period tr then "holds" else "fails")
+      | none => (st, "bad-op")
+    | some (.breaker p) =>
+      match allSome (evs.map parseBEv?) with
+      | some tr => (st, if Spec.breakerHolds p tr then "holds" else "fails")
+      | none => (st, "bad-op")
+    | none => (st, "bad-op")
+  | _ => (st, "bad-op")
+
+def main : IO Unit := mainLoop step {}
